@@ -589,27 +589,36 @@ func checkPersistAll(c *core.Ctx, rule string) {
 				val := s.Common.Args[2]
 				srcs := amountSources(val)
 				bad := ""
+				// the outermost decision on the written amount that governs this write
+				var decision *ssa.BasicBlock
 				for _, gt := range core.GatesBefore(s.Instr) {
-					shared := ""
+					shared := false
 					for src := range amountSources(gt.If.Cond) {
 						if srcs[src] {
-							shared = src
+							shared = true
 						}
 					}
-					if shared == "" {
-						continue
+					if shared && (decision == nil || gt.If.Block().Dominates(decision)) {
+						decision = gt.If.Block()
 					}
-					// the other outcome must remove the key
-					other := gt.If.Block().Succs[1]
-					if !gt.PassTrue {
-						other = gt.If.Block().Succs[0]
+				}
+				if decision != nil {
+					// whatever the amount turns out to be, the key is written or removed before the
+					// iteration (or the function) ends — or the process stops
+					writes := map[*ssa.BasicBlock]bool{}
+					for _, blk := range g.Blocks {
+						for _, in := range blk.Instrs {
+							if call, ok := in.(*ssa.Call); ok {
+								cn := core.CalleeName(&call.Call)
+								if strings.HasSuffix(cn, "iavl.MutableTree).Set") || strings.HasSuffix(cn, "iavl.MutableTree).Remove") {
+									writes[blk] = true
+								}
+							}
+						}
 					}
-					removes := false
-					// (within the same iteration when the write sits in a loop over the records)
-					avoid := map[*ssa.BasicBlock]bool{s.Block(): true}
-					var loop map[*ssa.BasicBlock]bool
+					var header *ssa.BasicBlock
 					if core.InCycle(s.Block()) {
-						loop = map[*ssa.BasicBlock]bool{s.Block(): true}
+						loop := map[*ssa.BasicBlock]bool{s.Block(): true}
 						for x := range core.ReachFrom(s.Block(), nil) {
 							if core.ReachFrom(x, nil)[s.Block()] {
 								loop[x] = true
@@ -618,24 +627,88 @@ func checkPersistAll(c *core.Ctx, rule string) {
 						for x := range loop {
 							for _, pr := range x.Preds {
 								if !loop[pr] {
-									avoid[x] = true
+									header = x
 								}
 							}
 						}
 					}
-					for blk := range core.ReachFrom(other, avoid) {
-						if loop != nil && !loop[blk] {
-							continue
+					where := ""
+					if iff := core.IfOf(decision); iff != nil {
+						where = c.PosStr(iff.Cond.Pos())
+					}
+					if where == "" {
+						where = fmt.Sprintf("block %d of %s", decision.Index, g.Name())
+					}
+					type st struct {
+						b        *ssa.BasicBlock
+						excluded string
+					}
+					seen := map[st]bool{}
+					var walk func(b *ssa.BasicBlock, excl map[int64]bool, subject ssa.Value)
+					walk = func(b *ssa.BasicBlock, excl map[int64]bool, subject ssa.Value) {
+						if bad != "" || writes[b] {
+							return
 						}
-						for _, in := range blk.Instrs {
-							if call, ok := in.(*ssa.Call); ok && strings.HasSuffix(core.CalleeName(&call.Call), "iavl.MutableTree).Remove") {
-								removes = true
+						key := st{b, fmt.Sprint(excl)}
+						if seen[key] {
+							return
+						}
+						seen[key] = true
+						if b == header {
+							bad = where
+							return
+						}
+						if len(b.Instrs) > 0 {
+							switch b.Instrs[len(b.Instrs)-1].(type) {
+							case *ssa.Return:
+								bad = where
+								return
+							case *ssa.Panic:
+								return
 							}
 						}
+						iff := core.IfOf(b)
+						for i, sc := range b.Succs {
+							ne := excl
+							if iff != nil {
+								if bin, ok := iff.Cond.(*ssa.BinOp); ok && (bin.Op == token.EQL || bin.Op == token.NEQ) {
+									if kk, isK := core.ConstInt(bin.Y); isK {
+										if call, isCall := core.Unwrap(bin.X).(*ssa.Call); isCall && core.CalleeName(&call.Call) == "(*math/big.Int).Sign" && (subject == nil || subject == ssa.Value(call)) {
+											eq := (bin.Op == token.EQL) == (i == 0)
+											if eq {
+												if excl[kk] {
+													continue // contradicts an earlier decision on the same Sign()
+												}
+											} else {
+												ne = map[int64]bool{}
+												for x := range excl {
+													ne[x] = true
+												}
+												ne[kk] = true
+												if ne[-1] && ne[0] && ne[1] {
+													continue // a sign is −1, 0 or +1
+												}
+											}
+											walk(sc, ne, call)
+											continue
+										}
+									}
+								}
+							}
+							walk(sc, ne, subject)
+						}
 					}
-					if !removes {
-						bad = c.PosStr(gt.If.Cond.Pos())
+					for i, sc := range decision.Succs {
+						// re-enter through the decision itself so that its own comparison is accounted for
+						_ = i
+						_ = sc
 					}
+					seen = map[st]bool{}
+					// start at the decision block (its terminator is evaluated by walk)
+					writesBackup := writes[decision]
+					writes[decision] = false
+					walk(decision, map[int64]bool{}, nil)
+					writes[decision] = writesBackup
 				}
 				c.Check(bad == "", rule, fmt.Sprintf("%s/Set#%d", core.ShortFn(g), k), s.Pos(), "the record is written whatever its value (or the key is removed)",
 					"this tree write is skipped depending on the very amount it writes (condition at "+bad+") and the key is not removed instead: when the amount returns to the skipped state the tree keeps the old value — a restarted node loads it")
